@@ -71,12 +71,16 @@ fn assign_standoff_files(world: &mut World, json_resources: bool) -> Result<(), 
 }
 
 pub fn restart_json_include(world: &mut World, stats: &mut RunStats) -> (ExecResult, Vec<Violation>) {
+    restart_json_include_opts(world, stats, true)
+}
+
+pub fn restart_json_include_opts(world: &mut World, stats: &mut RunStats, json_resources: bool) -> (ExecResult, Vec<Violation>) {
     let mut violations = Vec::new();
     let n = world.restart_count;
     let path = format!("/sim/j{}/store.store.stam.json", n);
     stats.probe("restart_json_include");
     let r = catch(|| -> Result<(), String> {
-        assign_standoff_files(world, true)?;
+        assign_standoff_files(world, json_resources)?;
         world.store.set_filename(&path);
         world.store.save().map_err(|e| format!("{}", e))
     });
